@@ -267,3 +267,29 @@ pub fn signed_duration() -> BoxedStrategy<(i64, i32)> {
     ];
     (secs, nanos).boxed()
 }
+
+/// Internal coherence of a Timestamp as observable through the public API:
+/// the nanosecond view is in range, second and sub-second parts agree in sign
+/// and the value is ==/cmp/hash-equal to `from_nanosecond` of its own
+/// nanosecond view (a value whose fields have mixed signs fails this).
+pub fn ts_sane(ts: jiff::Timestamp) -> Result<(), String> {
+    use std::hash::{Hash, Hasher};
+    let ns = ts.as_nanosecond();
+    if !(crate::refmodel::wide::TS_MIN_NS..=crate::refmodel::wide::TS_MAX_NS).contains(&ns) {
+        return Err(format!("timestamp {ns}ns is outside Timestamp::MIN..=MAX"));
+    }
+    let (s, n) = (ts.as_second(), ts.subsec_nanosecond());
+    if s as i128 != ns / 1_000_000_000 || n as i128 != ns % 1_000_000_000 {
+        return Err(format!("timestamp views disagree: as_nanosecond={ns} as_second={s} subsec_nanosecond={n}"));
+    }
+    let canon = jiff::Timestamp::from_nanosecond(ns).map_err(|e| e.to_string())?;
+    let h = |t: &jiff::Timestamp| {
+        let mut st = std::collections::hash_map::DefaultHasher::new();
+        t.hash(&mut st);
+        st.finish()
+    };
+    if ts != canon || ts.cmp(&canon) != std::cmp::Ordering::Equal || h(&ts) != h(&canon) {
+        return Err(format!("timestamp with as_nanosecond={ns} is not ==/cmp/hash-equal to Timestamp::from_nanosecond({ns})"));
+    }
+    Ok(())
+}
